@@ -66,7 +66,9 @@ reg("C18", ["c18_bytebuf.c"],
          "and every content over {a1,b2}; consume and consume_at_most with every length 0..size+1; rewind, reset, "
          "clear, repeat) is executed from every reached (offset, used, memory image) state until closure; "
          "'setup': set/use/space on all argument combinations size 0..6 x used 0..7 x offset 0..8 x NULL; "
-         "'history': seeded random histories on sizes 1..300 with operand lengths biased to the boundary. A "
+         "'history': seeded random histories on sizes 1..300 (and 255..66000) with operand lengths biased to the "
+         "boundary. Requests that must be refused get no destination (NULL) or a poisoned one a third of the time "
+         "each. A "
          "signature is a distinct reached state, a set-up argument tuple or a history; evaluations counts "
          "operations executed and compared with the list model.",
     exhaustive={"quick": "all reachable states of buffers of size 1..5 under all operations with operand lengths 0..size+1",
@@ -78,8 +80,9 @@ reg("C14", ["c14_varint.c"],
          "2^32 in quick, all 2^32 in thorough, plus 2^k +- 2) and u64/s64 (2^k +- 3, all one- and two-bit patterns "
          "and complements, seeded random magnitudes); 'strings-N': every octet string of length N <= 7 (quick) / "
          "<= 11 (thorough) over {00,01,7f,80,81,ff} and 'randstr' random strings of length 0..11, each placed in an "
-         "exact-size poisoned-arena block (size = used = N and size = N, used = 0) and given to all four buffer "
-         "decoders and all four source decoders. A signature is (generator, type, chunk); evaluations counts round "
+         "exact-size poisoned-arena block (size = used = N and size = N, used = 0; and as the unread rest of blocks "
+         "with 1, 9 and 12 consumed octets in front) and given to all four buffer decoders and all four source "
+         "decoders. A signature is (generator, type, chunk); evaluations counts round "
          "trips and decoder input strings.",
     exhaustive={"quick": "all octet strings of length <= 7 over the 6-octet alphabet as decoder input",
                 "thorough": "all 2^32 values of u32 and s32; all octet strings of length <= 11 over the 6-octet alphabet"})
@@ -93,7 +96,10 @@ reg("C12", ["c12_slip.c"], level="fault_enumeration",
          "prefix is empty or - classic mode - ends in a delimiter); each in classic and start-of-frame mode with "
          "octet and chunk style source and sink drivers (8 configurations); (d) strings of length <= 5 and every "
          "7th longer one: a source error at every input position and a sink error at every output position of "
-         "encoder and decoder. 'random': seeded payloads up to 1 KiB (full alphabet, control-heavy, control-only). "
+         "encoder and decoder; injected error codes vary over small, large and count-like values. 'octets': every "
+         "octet value alone, behind an escape octet, between ordinary octets and in front of a delimiter in uses "
+         "(a)-(c). 'random': seeded strings up to 1 KiB (full alphabet, control-heavy, control-only) as payload and "
+         "(first 96 octets) as raw decoder input and garbage prefix. "
          "A signature is a distinct string of length <= 4 or a (generator, unit) pair; evaluations counts "
          "(string, configuration, use) executions.",
     exhaustive={"quick": "all strings of length <= 7 over the 5-symbol alphabet in all three uses and 8 configurations",
@@ -151,7 +157,12 @@ reg("C10", ["c10_pstore.c"],
          "three alterations of every octet of the region. 'reconf': 300 (quick) / 4000 (thorough) units of six "
          "set-up histories each: one instance is placed and given checksum algorithms several times in seeded "
          "order (the last placement and the last algorithm count, in either order, incl. narrowing or widening "
-         "the checksum after the last placement) before the same battery runs. A signature is a configuration "
+         "the checksum after the last placement) before the same battery runs. 'big': data sizes 255..70000 with "
+         "auxiliary buffers none/1/7/255/256/4096/65535/65536/size-1/size/size+1 at placements 4093 and top of "
+         "the address space. 'remarkable': images constructed so that their checksum is 0 and all-ones for each "
+         "algorithm (last octets searched; for the 32-bit sum the initial value is solved for), stored whole and "
+         "completed by a partial store, every single-octet alteration, blank media (all 00, all ff). A signature "
+         "is a configuration "
          "(size, placement, checksum, aux size); evaluations counts operations checked.",
     assumptions=["the medium callbacks return exactly what was asked (faults are the subject of C11)",
                  "checksum octets on the medium are native (little) endian"])
@@ -163,8 +174,9 @@ reg("C11", ["c11_pcrash.c"], level="fault_enumeration",
          "boundary-biased seeded sample otherwise) on a medium holding a valid image, the recorded write log is "
          "replayed offline into every prefix and every octet-granular tear of each write, and each image is "
          "validated (and, at whole-write granularity, fetched) on a fresh instance. Faults: every medium access k of "
-         "store, store_part, reset, validate, fetch, fetch_part fails (moves nothing) or transfers one octet short, "
-         "for every k. A signature is a (configuration, aux size) pair; evaluations counts crash images judged plus "
+         "store, store_part, reset, validate, fetch, fetch_part fails (moves nothing and reports 0), transfers one "
+         "octet short, or moves nothing and reports (size_t)-1, for every k. 'big': data sizes 300, 65536, 65539 with "
+         "auxiliary buffers 4096/65535/65536/size+1 (tears sampled around the 8- and 16-bit boundaries). A signature is a (configuration, aux size) pair; evaluations counts crash images judged plus "
          "fault positions injected.",
     assumptions=["a torn write leaves a prefix of its octets on the medium; writes are not reordered",
                  "zero-length medium accesses cannot fail visibly and are not counted as injected faults"])
@@ -183,8 +195,10 @@ reg("C01", ["c01_typed.c"],
     exhaustive={"quick": "all values of 16-bit registers in every configuration",
                 "thorough": "all values of 16-bit registers in every configuration"})
 
-RT_FAMILY = ("tables from the small-scope family (seeded by index): 1-3 areas with bases from {0,1,5,0x100,0x7ffe}, sizes "
-             "1-8 words, gaps {0,0,1,3}; flags RW / read-only / write-only / skip-defaults; memory- or callback-backed "
+RT_FAMILY = ("tables from the small-scope family (seeded by index): 1-3 areas with bases from {0,1,5,0x100,0x7ffe,0xfff8,"
+             "0x7ffffff0,0xffffff00}, sizes 1-8 words (one table in six has one area of 18-48 words densely packed with "
+             "up to 46 registers, one in four an area left without registers on purpose), gaps {0,0,1,3}; flags RW / "
+             "read-only / write-only / skip-defaults; memory- or callback-backed "
              "(some callback areas without write callback); 16/32/64-bit unsigned, signed and float registers at every "
              "alignment with constraint none/min/max/range/callback/always-fail and seeded bounds; both byte orders")
 
@@ -241,7 +255,8 @@ reg("C05", ["c05_history.c"],
 reg("C06", ["c06_regp_exec.c"],
     rule="'session': 8 sessions per unit of 1-50 frames on one RegP in server role (serial or TCP, 8- or 16-bit "
          "memory, allocator block 128/200/300/360): read and write requests in 8/16-bit semantics (1/6 with the "
-         "wrong word size), block sizes 0..capacity with the edges favoured, payloads rich in SLIP control octets, "
+         "wrong word size, half of those reads asking for capacity+1..0xffffffff words), block sizes 0..capacity with "
+         "the edges favoured, payloads rich in SLIP control octets, "
          "addresses incl. c0/db patterns, sequence numbers incl. the wrap, interleaved with responses of every code "
          "and meta frames; the scripted backend answers with each of the 12 response codes and an address. Frames come "
          "from the reference encoder, replies go through the reference decoder. 'table': the server bound to a real "
@@ -258,13 +273,19 @@ reg("C08", ["c08_regp_emit.c"],
          "without payload, the eleven regp_resp_e*, regp_resp_meta) with addresses/arguments biased to SLIP control "
          "octets, block sizes 0..139 and, every fifth time, raw frame lengths 126..129 or 16382..16385; payloads "
          "random / control octets only / control-rich / counting. 'big': raw lengths 16380..16387 for the write "
-         "requests and the payload acknowledgement. Each emission is compared octet for octet with the reference "
+         "requests and the payload acknowledgement; 'huge': payloads of 65534..140002 octets (2^16 octets and 2^16 "
+         "words and beyond); 'seqsweep': on the serial link every sequence number once per entry point and memory "
+         "word size, so that the header checksum takes every 16-bit value about once. Each emission is compared "
+         "octet for octet with the reference "
          "encoder and then received by a peer instance. A signature is a (unit, round); evaluations counts emissions.")
 
 reg("C07", ["c07_regp_corrupt.c"], level="fault_enumeration",
     rule="'mutate': corpus from the reference encoder (serial options): read requests, write requests and read "
          "acknowledgements in 8/16-bit semantics with 0,1,2,5 words (quick) / 0..40 words (thorough), write and read "
-         "responses of every code, both meta messages. Per frame, on the serial channel: every single-bit flip; "
+         "responses of every code, both meta messages, and frames constructed so that their checksum fields hold "
+         "remarkable values (payload checksum 0000 via an all-zero payload and via a payload ending in its own "
+         "checksum, payload checksum ffff, header checksum 0000 / ffff, header checksum equal to the payload "
+         "checksum). Per frame, on the serial channel: every single-bit flip; "
          "two-bit flips behind the first header word (all pairs for short frames and in thorough, else pairs <= 17 "
          "bits apart plus a seeded sample); every burst of length 2..16 at every bit offset behind the first word "
          "(first and last bit flipped, all interior patterns up to length 6, three random ones beyond); every "
